@@ -639,8 +639,10 @@ def arg_value(a) -> int:
 
 
 def paste_spec(T, c, ty, data, mode, n):
-    """text after pasting `data` `n` times at cursor c (n <= 0: zero times)"""
-    n = max(n, 0)
+    """text after pasting `data` `n` times at cursor c; n <= 0: nothing is inserted, the text is
+    unchanged (for every data type: no padding, no added line)"""
+    if n <= 0:
+        return T
     if ty == "c":
         q = min(c + 1, len(T)) if mode == "A" else c
         return T[:q] + data * n + T[q:]
@@ -759,6 +761,8 @@ def oracle_emacs_seq(case, tr, bad0):
                 bad("named_commands.yank", "ring changed", "ring")
             if T2 != paste_spec(T, c, top[0], top[1], "e", n):
                 bad("named_commands.yank", "inserted text != ring top x count", "yank")
+            if n <= 0 and c2 != c:
+                bad("named_commands.yank", "non-positive count moved the cursor", "yank")
             if a["dbp"] != (T, c):
                 bad("named_commands.yank", "document_before_paste", "snapshot for yank-pop")
             if prev is not None and prev[1] and prev[0] in KILL_NAME and n == 1 and origin is not None \
@@ -965,8 +969,12 @@ def oracle(case):
                 d = Document(T, cur).paste_clipboard_data(ClipboardData(data, TY[ty]), paste_mode=MODE[mode],
                                                           count=count)
             except AssertionError:
-                if count >= 1:
-                    bad0("Document.paste_clipboard_data", "raises", f"text={T!r} q={[cur, ty, data, mode, count]}")
+                bad0("Document.paste_clipboard_data", "raises", f"text={T!r} q={[cur, ty, data, mode, count]}")
+                continue
+            if count <= 0 and (d.text, d.cursor_position) != (T, cur):
+                bad0("Document.paste_clipboard_data", "non-positive count changed the document",
+                     f"text={T!r} cur={cur} data={data!r} type={ty} mode={mode} count={count} -> "
+                     f"{d.text!r} cur={d.cursor_position}")
                 continue
             if d.text != paste_spec(T, cur, ty, data, mode, count):
                 bad0("Document.paste_clipboard_data", f"{TY[ty].name} data not inserted unchanged x count",
